@@ -188,6 +188,40 @@ Theorem C11_empty_file_never_opens : forall online isz nc fts fs ns nc' f rw,
 Proof. exact empty_file_never_opens. Qed.
 Print Assumptions C11_empty_file_never_opens.
 
+(* ---- readers constructed without a meta file (Reader.ns returns the caller's / guessed self._ns) ---- *)
+
+(* 15. Offline Reader without meta file: the exposed frame count is the caller's ns, never adjusted
+   (the duration computed in the mismatch branch is discarded because self.meta is None); the open
+   succeeds exactly when those frames fit in the non-empty file.  So "exposes the complete frames
+   present" holds iff the caller states them — there is no metadata to reconcile. *)
+Theorem C11_nometa_offline_exact : forall isz nbytes nc ns,
+  open_nometa false isz nbytes nc ns =
+    (if memmap_ok isz nbytes ns nc then Opened ns nc None false else MmapError) /\
+  ((exists n c f rw, open_nometa false isz nbytes nc ns = Opened n c f rw) <->
+   0 < nbytes /\ 0 <= ns * nc * isz <= nbytes).
+Proof.
+  intros. split; [apply open_nometa_offline|apply open_nometa_offline_iff].
+Qed.
+Print Assumptions C11_nometa_offline_exact.
+
+(* 16. OnlineReader without meta file: floor of the current size, the caller's ns is ignored. *)
+Theorem C11_nometa_online_floor : forall isz nbytes nc ns,
+  isz_ok isz -> 1 <= nc -> isz * nc < 2 ^ 53 -> 1 <= nbytes < 2 ^ 53 ->
+  open_nometa true isz nbytes nc ns = Opened (nbytes / (isz * nc)) nc None false.
+Proof. exact open_nometa_online. Qed.
+Print Assumptions C11_nometa_online_floor.
+
+(* 17. No arguments at all (int16): when the size is a multiple of 768 or 770 bytes the constructor
+   guesses 384 (resp. 385) channels, fs = 30000 and ns = size / (2 nc) exactly, and the open exposes
+   all of them. *)
+Theorem C11_nometa_guess : forall nbytes a,
+  1 <= nbytes < 2 ^ 53 -> guess_nc nbytes = Some a ->
+  (a = 384 \/ a = 385) /\ nbytes mod (2 * a) = 0 /\
+  construct_nometa nbytes None None None = NmOk a (nbytes / (2 * a)) 30000 /\
+  open_nometa false 2 nbytes a (nbytes / (2 * a)) = Opened (nbytes / (2 * a)) a None false.
+Proof. exact nometa_guess. Qed.
+Print Assumptions C11_nometa_guess.
+
 (* ---- the hypotheses are satisfiable on concrete, non-trivial inputs ---- *)
 Local Open Scope R_scope.
 Example fs_ok_30000 : fs_ok (of_me 30000 0).
@@ -277,3 +311,16 @@ Qed.
 Example ex_cbin_short : run [1; 1; 10; 8; 8; 2500; 0; 1; 7609281930405190; -59]
                         = [0; 10; 8; 0; 3; 0; 4611686018427388; -60; 3; 0; 4611686018427388; -60].
 Proof. vm_compute. reflexivity. Qed.
+
+(* no meta file: 3 frames of 385 channels guessed from 2310 bytes; caller's nc=8 ns=5 on 100 bytes -> 5 frames;
+   ns=7 -> ValueError; OnlineReader nc=8 -> 6 frames whatever ns says; nc missing and size not guessable -> AssertionError *)
+Example ex_nometa_guess : run [3; 0; 2; 2310; 0; 0; 0; 0; 0; 0]
+                          = [0; 3; 385; 0; 4; 0; 0; 0; 3; 0; 7378697629483821; -66].
+Proof. vm_compute. reflexivity. Qed.
+Example ex_nometa_guess_hyp : guess_nc 2310 = Some 385.
+Proof. vm_compute. reflexivity. Qed.
+Example ex_nometa_caller : run [3; 0; 2; 100; 1; 8; 1; 5; 1; 30000] = [0; 5; 8; 0; 4; 0; 0; 0; 3; 0; 6148914691236517; -65]
+                        /\ run [3; 0; 2; 100; 1; 8; 1; 7; 1; 30000] = [1]
+                        /\ run [3; 1; 2; 100; 1; 8; 1; 7; 1; 30000] = [0; 6; 8; 0; 4; 0; 0; 0; 3; 0; 7378697629483821; -65]
+                        /\ run [3; 0; 2; 100; 0; 0; 1; 7; 1; 30000] = [5].
+Proof. vm_compute. repeat split; reflexivity. Qed.
